@@ -21,10 +21,24 @@ Fixpoint parse_value (t : term) {struct t} : option value :=
       let plist := (fix go (l : list term) : option (list value) :=
                       match l with
                       | [] => Some []
-                      | x :: l' => match parse_value x, go l' with
+                      | x :: l' =>
+                          match x with
+                          | TL [TS tg; TZ n; e] =>
+                              (* (x n elem): a run of n equal elements *)
+                              if String.eqb tg "x" then
+                                match parse_value e, go l' with
+                                | Some v, Some vs => Some (List.app (repeat v (Z.to_nat n)) vs)
+                                | _, _ => None
+                                end
+                              else match parse_value x, go l' with
                                    | Some v, Some vs => Some (v :: vs)
                                    | _, _ => None
                                    end
+                          | _ => match parse_value x, go l' with
+                                 | Some v, Some vs => Some (v :: vs)
+                                 | _, _ => None
+                                 end
+                          end
                       end) in
       if String.eqb tag "i" then match args with [TZ z] => Some (VInt z) | _ => None end
       else if String.eqb tag "b" then
@@ -208,6 +222,22 @@ Definition check40 (t : term) : term :=
   | _ => v_parse
   end.
 
+(* some slice / map below the schema is declared `allocbound=-` *)
+Fixpoint has_unbounded (fuel : nat) : schema -> bool :=
+  fix go (s : schema) : bool :=
+    match s with
+    | SSlice bd e => (match bd with None => true | Some _ => false end) || go e
+    | SMap bd k v => (match bd with None => true | Some _ => false end) || go k || go v
+    | SArray _ e | SPtr e => go e
+    | SStruct fs => (fix gof (fs : list (fhdr * schema)) : bool :=
+                       match fs with [] => false | (_, f) :: t => go f || gof t end) fs
+    | SRef id => match fuel with
+                 | O => false
+                 | S fuel' => match lookup env id with Some s' => has_unbounded fuel' s' | None => false end
+                 end
+    | _ => false
+    end.
+
 (* ---- C41 ---- *)
 Definition check41 (t : term) : term :=
   match t with
@@ -239,6 +269,13 @@ Definition check41 (t : term) : term :=
                           | _, _ => false
                           end in
           if dupmerge then v_known "duplicate_key_map_merge_exceeds_allocbound" detail else
+          (* recorded finding: a collection declared `allocbound=-` is allocated from its length prefix before
+             any element is read; the input is too short (model: EShort) but the process dies first *)
+          let oom := match out, m with
+                     | OPanic, Err EShort => has_unbounded (length env) s
+                     | _, _ => false
+                     end in
+          if oom then v_known "unbounded_allocbound_length_prefix_oom" detail else
           verdict spec_ok corr nontrivial detail
       | None => v_parse
       end
